@@ -26,6 +26,7 @@ use ractor::factory::routing::{
     CustomHashFunction, CustomRouting, KeyPersistentRouting, QueuerRouting, RoundRobinRouting, Router,
     StickyQueuerRouting,
 };
+use ractor::factory::WorkerCapacityController;
 use ractor::factory::{
     DiscardHandler, DiscardMode, DiscardReason, DiscardSettings, DynamicDiscardController, Factory,
     FactoryArguments, UpdateSettingsRequest,
@@ -245,7 +246,35 @@ impl PriorityManager<Key, StandardPriority> for Prio {
 struct Scn {
     discard: DiscardSettings,
     n0: usize,
+    /// what the WorkerCapacityController answers on successive Calculate ticks (None: no controller)
+    ctl: Option<Vec<usize>>,
     ops: Vec<Vec<String>>,
+}
+
+/// scripted capacity controller; an exhausted script answers the current size
+struct ScriptedCapacity(std::collections::VecDeque<usize>);
+impl WorkerCapacityController for ScriptedCapacity {
+    fn get_pool_size(&mut self, current: usize) -> BoxFuture<'_, usize> {
+        let n = self.0.pop_front().unwrap_or(current);
+        async move { n }.boxed()
+    }
+}
+
+/// scripted dynamic discard controller; an exhausted script keeps the limit
+struct ScriptedLimit(std::collections::VecDeque<usize>);
+impl DynamicDiscardController for ScriptedLimit {
+    fn compute(&mut self, current_threshold: usize) -> BoxFuture<'_, usize> {
+        let n = self.0.pop_front().unwrap_or(current_threshold);
+        async move { n }.boxed()
+    }
+}
+
+fn script(s: &str) -> Option<Vec<usize>> {
+    if s == "-" {
+        None
+    } else {
+        Some(s.split(',').filter(|x| !x.is_empty()).map(|x| x.parse().expect("script")).collect())
+    }
 }
 
 fn opt(v: Option<usize>) -> String {
@@ -271,6 +300,11 @@ where
         .discard_handler(Arc::new(Discards(sh.clone())))
         .discard_settings(scn.discard)
         .lifecycle_hooks(Box::new(Hooks(sh.clone())))
+        .maybe_capacity_controller(
+            scn.ctl
+                .clone()
+                .map(|v| Box::new(ScriptedCapacity(v.into())) as Box<dyn WorkerCapacityController>),
+        )
         .build();
     let (factory, _handle) = Actor::spawn(None, fdef, args).await.expect("factory spawn");
     let mut windows: Vec<String> = Vec::new();
@@ -363,6 +397,21 @@ where
             }
             "drain" => {
                 let _ = factory.cast(FactoryMessage::DrainRequests);
+            }
+            "tick" => {
+                // jump over the next DoPings deadline (10 s): one Calculate and one DoPings are processed
+                tokio::time::advance(Duration::from_nanos(10_005_000_000)).await;
+            }
+            "updn" => {
+                // UpdateSettings { worker_count }: the other way to ask for a pool size
+                let req = UpdateSettingsRequest::builder().worker_count(op[1].parse().unwrap()).build();
+                let _ = factory.cast(FactoryMessage::UpdateSettings(req));
+            }
+            "updhooks" => {
+                // UpdateSettings { lifecycle_hooks }: a new hooks object takes over (same log)
+                let hooks: Box<dyn FactoryLifecycleHooks<Key, Msg>> = Box::new(Hooks(sh.clone()));
+                let req = UpdateSettingsRequest::builder().lifecycle_hooks(Some(hooks)).build();
+                let _ = factory.cast(FactoryMessage::UpdateSettings(req));
             }
             "upd" => {
                 // UpdateSettings { discard_settings } at runtime
@@ -501,7 +550,16 @@ fn run_case(rest: &str) -> String {
         .map(|o| o.split_whitespace().map(|w| w.to_string()).collect::<Vec<_>>())
         .filter(|o| !o.is_empty())
         .collect();
-    let scn = Scn { discard: parse_discard(&head[2]), n0: head[4].parse().expect("n0"), ops };
+    // optional 6th / 7th head fields: capacity controller script, dynamic discard controller script
+    let ctl = head.get(5).and_then(|x| script(x));
+    let dynscr = head.get(6).and_then(|x| script(x));
+    let mut discard = parse_discard(&head[2]);
+    if let Some(v) = dynscr {
+        if let Some((limit, mode)) = discard.get_limit_and_mode() {
+            discard = DiscardSettings::Dynamic { limit, mode, updater: Box::new(ScriptedLimit(v.into())) };
+        }
+    }
+    let scn = Scn { discard, n0: head[4].parse().expect("n0"), ctl, ops };
     let rt = tokio::runtime::Builder::new_current_thread()
         .enable_time()
         .start_paused(true)
